@@ -10,7 +10,9 @@ import weakref
 from vlib import chainspace as cs
 
 LEVEL = "exploration"
-RULE = ("Every frame of every (chain, suspension point) of the C03 chain space, plus running chains of depth 1..4 over "
+RULE = ("Every program of the E1 with-program space (AST size <= 3 quick / 4 thorough; coroutine, generator, async generator) at every "
+        "suspension incl. inside __aexit__: extract_outermost(x) vs extract(x).frames[0] field by field (contexts with their obj, "
+        "flags); an elaborate hook that reads next_inner. Every frame of every (chain, suspension point) of the C03 chain space, plus running chains of depth 1..4 over "
         "{coroutine, generator, async generator} probed from a plain function called by the innermost link (extract(root), "
         "extract(each link), extract_since(None)), plus blocked/dead threads, greenlets (3.12 leg) and custom stack items "
         "with/without frames and with recorded errors. Checks: origin None or weak-referenceable with "
@@ -370,9 +372,76 @@ def observe_misc(name):
     return "ok", problems, n[0]
 
 
+class OutermostObserver(object):
+    """progspace observer: extract_outermost(target) must equal extract(target).frames[0] at every suspension,
+    in particular when the outermost frame is suspended inside one of its own managers' __aexit__."""
+    wants_probe = False
+
+    def __init__(self, withs):
+        self.fails = []
+        self.nobs = 0
+
+    def on_suspend(self, rt, target, tag, n):
+        import stackscope
+        self.nobs += 1
+        problems = []
+        with warnings.catch_warnings():
+            warnings.simplefilter("ignore")
+            st = stackscope.extract(target)
+        check_outermost(target, problems, "suspended@%s" % tag, st=st)
+        for f in st.frames[:1]:
+            check_origin(f, target, problems, "suspended@%s" % tag)
+        if problems:
+            self.fails.append((tag, n, problems))
+
+
+def hook_scenario():
+    """an elaborate_frame hook whose answer depends on next_inner: both entry points must give it the same next_inner"""
+    import stackscope
+    problems = []
+
+    def inner_gen():
+        yield 1
+
+    def outer_gen():
+        yield from inner_gen()
+    seen = []
+
+    def hook(frame, next_inner):
+        seen.append(next_inner)
+        frame.hide_line = isinstance(next_inner, stackscope.Frame)
+        return None
+    stackscope.elaborate_frame.register(outer_gen, hook)
+    g = outer_gen()
+    next(g)
+    check_outermost(g, problems, "hook-reads-next_inner")
+    g.close()
+    return problems, 1
+
+
 def run(ctx):
     b = bounds(ctx.tier)
     idx = 0
+    from vlib import progspace as ps
+    from vlib.ctxobs import run_program
+    g = ps.grammar("core")
+    for body in ps.programs(g, 3 if ctx.tier == "quick" else 4, 3):
+        for kind in ("coro", "agen", "gen"):
+            if not ps.kind_ok(body, kind) or not ps.nontrivial(body, kind):
+                continue
+            idx += 1
+            if not ctx.mine(idx):
+                continue
+            npaths, nobs = run_program(body, kind, ctx, OutermostObserver, case_extra={"mode": "prog"})
+            ctx.count("evaluations", nobs)
+            ctx.count("distinct_nontrivial")
+            ctx.count("programs")
+    idx += 1
+    if ctx.mine(idx):
+        problems, n = hook_scenario()
+        ctx.count("evaluations", n)
+        if problems:
+            ctx.violation({"mode": "hook"}, "; ".join(problems)[:1200], "hook")
     for spec in cs.specs(b["max_links"]):
         idx += 1
         if not ctx.mine(idx):
@@ -414,6 +483,11 @@ def run(ctx):
 
 
 def replay(case):
+    if case.get("mode") == "prog":
+        from vlib.ctxobs import replay_case
+        return replay_case(case, OutermostObserver)
+    if case.get("mode") == "hook":
+        return [{"detail": p} for p in hook_scenario()[0]]
     if case.get("mode") == "suspended":
         s = case["spec"]
         status, problems, n = observe_suspended((s[0], s[1], s[2], s[3]), case["k"])
